@@ -36,6 +36,11 @@ asn_random_fill_f  REAL_random_fill;
  * Some handy conversion routines. *
  ***********************************/
 
+/*
+ * Print the value: in the pleasant form (canonical = 0, may lose precision),
+ * in the CANONICAL-XER form (canonical > 0), or in the pleasant form
+ * unless it loses precision (canonical < 0, BASIC-XER).
+ */
 ssize_t REAL__dump(double d, int canonical, asn_app_consume_bytes_f *cb, void *app_key);
 
 /*
